@@ -42,11 +42,11 @@ def PDCfg.good : PDCfg :=
 def PDCfg.OpsGood (c : PDCfg) : Prop :=
   c.staleVerOp = .lt ∧ c.staleConfOp = .lt ∧ c.overlapOp = .le ∧ c.lookupEndOp = .ge
 
-instance (c : PDCfg) : Decidable c.OpsGood := by unfold PDCfg.OpsGood; exact inferInstance
+instance PDCfg.decOpsGood (c : PDCfg) : Decidable c.OpsGood := by unfold PDCfg.OpsGood; exact inferInstance
 
 def PDCfg.Good (c : PDCfg) : Prop := c.OpsGood ∧ c.rejectsInverted = true
 
-instance (c : PDCfg) : Decidable c.Good := by unfold PDCfg.Good; exact inferInstance
+instance PDCfg.decGood (c : PDCfg) : Decidable c.Good := by unfold PDCfg.Good; exact inferInstance
 
 def bcmp (op : CmpOp) (a b : Bytes) : Bool := op.eval (Bytes.lt a b) (a == b)
 
@@ -116,11 +116,11 @@ def lookup (c : PDCfg) (pd : PD) (key : Bytes) : Option Meta :=
 def contains (m : Meta) (k : Bytes) : Prop :=
   Bytes.le m.start k = true ∧ (m.end_ = [] ∨ Bytes.lt k m.end_ = true)
 
-instance (m : Meta) (k : Bytes) : Decidable (contains m k) := by unfold contains; exact inferInstance
+instance decContains (m : Meta) (k : Bytes) : Decidable (contains m k) := by unfold contains; exact inferInstance
 
 def proper (m : Meta) : Prop := m.end_ = [] ∨ Bytes.lt m.start m.end_ = true
 
-instance (m : Meta) : Decidable (proper m) := by unfold proper; exact inferInstance
+instance decProper (m : Meta) : Decidable (proper m) := by unfold proper; exact inferInstance
 
 /-- Executable spec of route lookup: all catalog entries whose range contains the key. -/
 def specLookup (pd : PD) (key : Bytes) : List Meta := pd.filter (fun m => decide (contains m key))
